@@ -159,6 +159,72 @@ def kill_oracle(d: ls.Driver):
     return None
 
 
+def statement_kills(ctx):
+    """KILL issued as a STATEMENT through the real Session: KILL QUERY of the issuing connection itself is a no-op for it - one
+    OK, and whatever it sends next (also pipelined behind the KILL) is answered normally; KILL QUERY / CONNECTION of another
+    connection reach that connection before the issuer's OK is final."""
+    import client as cl
+    import impl
+    problems = []
+    for scenario in ("self-plain", "self-drain-pending", "self-pipelined", "other-query", "other-connection"):
+        env = impl.Env(own_sleep=False)
+        try:
+            class S(impl.Session):
+                async def query(self, e, sql, attrs):
+                    await env.fut(("app", 0))
+                    return [(7,)], ["a"]
+
+            srv = impl.make_server(env, S)
+            a = impl.Conn(env, srv, cid=0); env.settle()
+            aid = cl.parse_handshake_v10(cl.split_raw(a.take())[0][1])["thread_id"]
+            a.feed(cl.frame(cl.handshake_response(user=b"u"), 1)); a.take()
+            b = impl.Conn(env, srv, cid=1); env.settle()
+            bid = cl.parse_handshake_v10(cl.split_raw(b.take())[0][1])["thread_id"]
+            b.feed(cl.frame(cl.handshake_response(user=b"u"), 1)); b.take()
+            ctx.evals += 1
+            kinds = lambda raw: [cl.kind_of(p, cl.BASE_CAPS) for _, p in cl.split_raw(raw)]   # noqa: E731
+            if scenario == "self-plain":
+                a.feed(cl.frame(bytes([cl.COM_QUERY]) + b"KILL QUERY %d" % aid, 0))
+                got = kinds(a.take())
+                a.feed(cl.frame(bytes([cl.COM_PING]), 0)); got2 = kinds(a.take())
+                if got != ["OK"] or got2 != ["OK"]:
+                    problems.append(dict(scenario=scenario, reply_to_kill=got, reply_to_ping=got2))
+            elif scenario == "self-drain-pending":
+                a.writer.paused = True
+                a.feed(cl.frame(bytes([cl.COM_QUERY]) + b"KILL QUERY %d" % aid, 0))
+                env.settle()
+                a.writer.paused = False
+                if ("drain", 0) in env.pending:
+                    env.resolve(("drain", 0), None)
+                env.settle()
+                got = kinds(a.take())
+                a.feed(cl.frame(bytes([cl.COM_PING]), 0)); got2 = kinds(a.take())
+                if got != ["OK"] or got2 != ["OK"]:
+                    problems.append(dict(scenario=scenario, reply_to_kill=got, reply_to_ping=got2))
+            elif scenario == "self-pipelined":
+                a.feed(cl.frame(bytes([cl.COM_QUERY]) + b"KILL QUERY %d" % aid, 0) + cl.frame(bytes([cl.COM_QUERY]) + b"SELECT a FROM t", 0))
+                env.settle()
+                if ("app", 0) in env.pending:
+                    env.resolve(("app", 0), None)
+                env.settle()
+                raw = cl.split_raw(a.take())
+                got = [cl.kind_of(p, cl.BASE_CAPS) for _, p in raw]
+                if got[:1] != ["OK"] or "ERR" in got or len(got) < 4:
+                    problems.append(dict(scenario=scenario, replies=got))
+            else:
+                a.feed(cl.frame(bytes([cl.COM_QUERY]) + b"SELECT a FROM t", 0))       # A is inside the application
+                b.feed(cl.frame(bytes([cl.COM_QUERY]) + (b"KILL QUERY %d" if scenario == "other-query" else b"KILL %d") % aid, 0))
+                gotb = kinds(b.take())
+                gota = kinds(a.take())
+                alive = a.blocked_on() != "done"
+                if gotb != ["OK"] or gota != ["ERR"] or alive != (scenario == "other-query"):
+                    problems.append(dict(scenario=scenario, issuer=gotb, target=gota, target_alive=alive))
+            a.eof(); b.eof()
+        finally:
+            env.close()
+    return problems
+
+
 def run(ctx: core.Ctx):
     rng = ctx.rng
     pr = core.check_proofs(ctx, "Props/C09", headers=[HEADER])
@@ -225,6 +291,9 @@ def run(ctx: core.Ctx):
         elif witness is None:
             witness = dict(kind="malformed-response-after-kill", command=repr(cmd), packets=[repr(a) for _, a in pk][:20], events=evs)
     ctx.coverage["known_finding_instances"] = n_known
+    sk = statement_kills(ctx)
+    if sk and witness is None:
+        witness = dict(kind="kill-statement", problems=sk)
     if witness is not None:
         core.report_violation(ctx, "a kill does more (or less) than the property allows", witness)
     if (not pr["ok"] or disagreements) and not ctx.violations:
